@@ -8,9 +8,9 @@ git checkout -q -- . ; rm -rf tests
 git apply out/patch$N.diff || { echo "patch does not apply"; exit 2; }
 T1=$(CARGO_NET_OFFLINE=true cargo test --offline 2>&1 | grep -E "^test result" | head -1)
 mkdir -p tests; cp out/demo$N.rs tests/demo$N.rs
-D1=$(CARGO_NET_OFFLINE=true cargo test --offline --features std,postcard-codec,bincode-codec --test demo$N 2>&1 | grep -E "^test result|error(\[|:)" | head -2 | tr '\n' ' ')
+D1=$(CARGO_NET_OFFLINE=true cargo test --offline --features std,postcard-codec,bincode-codec --test demo$N 2>&1 | grep -E "^test result|^error(\[|:)" | head -2 | tr '\n' ' ')
 git checkout -q -- src
-D0=$(CARGO_NET_OFFLINE=true cargo test --offline --features std,postcard-codec,bincode-codec --test demo$N 2>&1 | grep -E "^test result|error(\[|:)" | head -2 | tr '\n' ' ')
+D0=$(CARGO_NET_OFFLINE=true cargo test --offline --features std,postcard-codec,bincode-codec --test demo$N 2>&1 | grep -E "^test result|^error(\[|:)" | head -2 | tr '\n' ' ')
 rm -rf tests
 echo "suite_with_patch: $T1"
 echo "demo_with_patch: $D1"
